@@ -1,0 +1,30 @@
+//go:build verif
+
+package tcpclv4
+
+// Hook for the out-of-tree verification harness (build tag verif). Add-only: nothing here is
+// compiled into a normal build.
+
+import (
+	"fmt"
+	"net"
+
+	"github.com/dtn7/dtn7-go/pkg/bpv7"
+	"github.com/dtn7/dtn7-go/pkg/cla/tcpclv4/internal/utils"
+)
+
+// VerifNewClientConn creates a Client on an already established connection (what newClientTCP does
+// for the TCPListener), as the active or the passive entity of the session. The harness hands in
+// one end of a net.Pipe or of a loopback TCP connection and scripts the other end.
+func VerifNewClientConn(conn net.Conn, address string, endpointID bpv7.EndpointID, active bool) *Client {
+	return &Client{
+		address:    address,
+		activePeer: active,
+		customStartFunc: func(*Client) error {
+			return fmt.Errorf("verif: a Client on a supplied connection cannot be dialed again")
+		},
+		connCloser:    conn,
+		messageSwitch: utils.NewMessageSwitchReaderWriter(conn, conn),
+		nodeId:        endpointID,
+	}
+}
